@@ -6854,6 +6854,44 @@ let rec print = function
     (app (print a) ((Npos (XI (XO (XO (XI (XO XH)))))) :: ((Npos (XO (XI (XO
       (XI (XO XH)))))) :: [])))
 
+(** val lit_user : n -> n list **)
+
+let lit_user c =
+  if N.eqb c (Npos (XI (XO (XI (XI (XI (XO XH))))))) then c :: [] else lit c
+
+(** val lit_in_class : n -> n list **)
+
+let lit_in_class c =
+  if existsb (N.eqb c) ((Npos (XO (XO (XI (XI (XI (XO XH))))))) :: ((Npos (XI
+       (XI (XO (XI (XI (XO XH))))))) :: ((Npos (XI (XO (XI (XI (XI (XO
+       XH))))))) :: ((Npos (XO (XI (XI (XI (XI (XO XH))))))) :: ((Npos (XI
+       (XO (XI (XI (XO XH)))))) :: [])))))
+  then (Npos (XO (XO (XI (XI (XI (XO XH))))))) :: (c :: [])
+  else c :: []
+
+(** val print_user : re -> n list **)
+
+let rec print_user r = match r with
+| Chr c -> lit_user c
+| Cls (neg, cs) ->
+  app ((Npos (XI (XI (XO (XI (XI (XO XH))))))) :: [])
+    (app (if neg then (Npos (XO (XI (XI (XI (XI (XO XH))))))) :: [] else [])
+      (app (flat_map lit_in_class cs) ((Npos (XI (XO (XI (XI (XI (XO
+        XH))))))) :: [])))
+| Seq (a, b) -> app (print_user a) (print_user b)
+| Alt (a, b) ->
+  app ((Npos (XO (XO (XO (XI (XO XH)))))) :: ((Npos (XI (XI (XI (XI (XI
+    XH)))))) :: ((Npos (XO (XI (XO (XI (XI XH)))))) :: [])))
+    (app (print_user a)
+      (app ((Npos (XO (XO (XI (XI (XI (XI XH))))))) :: [])
+        (app (print_user b) ((Npos (XI (XO (XO (XI (XO XH)))))) :: []))))
+| Star a ->
+  app ((Npos (XO (XO (XO (XI (XO XH)))))) :: ((Npos (XI (XI (XI (XI (XI
+    XH)))))) :: ((Npos (XO (XI (XO (XI (XI XH)))))) :: [])))
+    (app (print_user a) ((Npos (XI (XO (XO (XI (XO XH)))))) :: ((Npos (XO (XI
+      (XO (XI (XO XH)))))) :: [])))
+| _ -> print r
+
 (** val print_top : re -> n list **)
 
 let print_top r = match r with
